@@ -2,7 +2,8 @@
    Record: 1 with_model model conds tuples atoms maxdepth subjects calls slack_us leaked opens stops live watchdog_us
      subjects = ( (subject pathx ((ot oi r impl) ...)) ... )  as in the C01 record: impl = outcome
                 class of the real Check (default strategy, no deadline) on Targets x relations;
-     calls    = ( (api effective_deadline_us elapsed_us) ... )  the deadline / cancellation runs;
+     calls    = ( (api effective_deadline_us elapsed_us confirmed) ... )  the deadline / cancellation runs;
+                confirmed = 1: the overrun repeated when the request was re-executed alone;
      leaked   = goroutines (not in the baseline, not allow-listed) still alive after the grace period;
      opens/stops/live = iterators handed out by the datastore / stopped / never stopped.
 
@@ -98,10 +99,11 @@ let f id vs =
     let props = ref mprops in
     List.iter (fun c ->
       match as_list c with
-      | [api; eff; el] ->
+      | [api; eff; el; confirmed] ->
         let eff = as_int eff and el = as_int el in
-        if el > eff + slack then
-          props := (Printf.sprintf "%s returned after %d us, effective deadline %d us (+%d us slack)" (api_s (as_int api)) el eff slack) :: !props
+        (* an overrun is a violation when it was confirmed by re-executing the same request alone *)
+        if el > eff + slack && as_int confirmed = 1 then
+          props := (Printf.sprintf "%s returned after %d us, effective deadline %d us (+%d us slack), confirmed by re-execution" (api_s (as_int api)) el eff slack) :: !props
       | _ -> failwith "call") (as_list calls);
     if as_int leaked > 0 then
       props := (Printf.sprintf "%d goroutine(s) started for a request still running after the grace period" (as_int leaked)) :: !props;
